@@ -59,6 +59,11 @@ func (seq *Sequence) Release() error {
 	seq.Lock()
 	defer seq.Unlock()
 
+	if seq.next >= seq.reserved {
+		// nothing is leased (never leased, exhausted or already released): the stored mark is already correct
+		return nil
+	}
+
 	var buf [8]byte
 	binary.BigEndian.PutUint64(buf[:], seq.next)
 	if err := seq.store.Set(seq.key, buf[:]); err != nil {
